@@ -15,7 +15,7 @@ def sched_tokens(draw, P):
 
 
 @st.composite
-def op_list(draw, maxlen=8, allow_other=False, allow_singular=False, pmax=4, need_refact=False, prec="d", sym_ok=False, allow_tune=False):
+def op_list(draw, maxlen=8, allow_other=False, allow_singular=False, pmax=4, need_refact=False, prec="d", sym_ok=False, allow_tune=False, allow_query=False):
     ops = []; have = False
     L = draw(st.integers(2, maxlen))
     k = 0
@@ -27,6 +27,7 @@ def op_list(draw, maxlen=8, allow_other=False, allow_singular=False, pmax=4, nee
             choices = ["REFACT", "REFACT", "REFACT", "SOLVE", "SOLVE", "DESTROY", "GSSV"]
         if allow_other: choices.append("OTHER")
         if allow_tune and not have: choices.append("TUNE")
+        if allow_query: choices.append("QUERY")
         if allow_singular: choices.append("GSSVX")
         c = draw(st.sampled_from(choices))
         P = draw(st.sampled_from([p for p in (1, 1, 2, 2, 3, 4) if p <= pmax]))
@@ -48,6 +49,8 @@ def op_list(draw, maxlen=8, allow_other=False, allow_singular=False, pmax=4, nee
                 ops[-1] = ops[-1].replace("symm=0 u=1.0", "symm=1 u=0.0")
         elif c == "GSSV":
             ops.append("GSSV P=%d nrhs=%d%s" % (P, draw(st.sampled_from([1, 2])), draw(sched_tokens(P))))
+        elif c == "QUERY":
+            ops.append("QUERY P=%d via=%s" % (P, draw(st.sampled_from(["gstrf", "gssvx"]))))
         elif c == "TUNE":
             t = mx.fix_tunables(draw(mx.tunables))
             ops.append("TUNE panel=%d relax=%d maxsuper=%d rowblk=%d colblk=%d" % (t["panel"], t["relax"], t["maxsuper"], t["rowblk"], t["colblk"]))
@@ -66,7 +69,7 @@ def op_list(draw, maxlen=8, allow_other=False, allow_singular=False, pmax=4, nee
 
 
 @st.composite
-def hist_case(draw, nmax=30, maxlen=8, allow_other=False, allow_singular=False, precs=PRECS, pmax=4, user_ws=False, allow_tune=False):
+def hist_case(draw, nmax=30, maxlen=8, allow_other=False, allow_singular=False, precs=PRECS, pmax=4, user_ws=False, allow_tune=False, allow_query=False):
     prec = draw(st.sampled_from(list(precs)))
     rec = draw(mx.recipe(2, nmax, None, ("dominant",), allow_zero_diag=True))
     entries = mx.entries_of(rec, prec)
@@ -78,7 +81,7 @@ def hist_case(draw, nmax=30, maxlen=8, allow_other=False, allow_singular=False, 
     s = {"prec": prec, "n": rec["n"], "m": rec["n"], "stype": "NC", "order": draw(st.sampled_from(["0", "1", "2", "3"]))}
     s.update(tun)
     sym_ok = (not rec.get("zero_diag")) and rec.get("permute") in (0, 1)
-    ops = draw(op_list(maxlen, allow_other, allow_singular, pmax, False, prec, sym_ok, allow_tune))
+    ops = draw(op_list(maxlen, allow_other, allow_singular, pmax, False, prec, sym_ok, allow_tune, allow_query))
     if user_ws and not any(o.startswith("TUNE") for o in ops) and draw(st.integers(0, 2)) == 0:
         # the whole history runs in a caller-supplied workspace sized from the library's own query (for 4 threads)
         s["ws_factor"] = draw(st.sampled_from([1.5, 2.0, 4.0])); s["ws_P"] = 4
